@@ -1,4 +1,4 @@
-//@@ unit props=C04,C19,C16,C14,C06
+//@@ unit props=C04,C19,C16,C14,C06 rlimit=120
 // Unit odsxml: src/ods.rs, verbatim text, the XML-event-consuming functions that unit `ods` left out:
 //   get_datatype (value typing C04, cell text assembly C19, formula text C14), read_table (establishes the `wf_shape` precondition of
 //   get_range: closes the gap to unit ods), read_named_expressions and parse_content (C16),
@@ -673,6 +673,12 @@ proof fn witness_resource_bounds()
         //# C19.ods_cell_text
         r is Ok && text_route(atts.rem()) && cell_scan(old(reader).events(), old(reader).pos() as int, txt_init()).st.plain ==>
             (r->Ok_0.0 matches Data::String(s) && s@ == cell_text(old(reader).events(), old(reader).pos() as int)),
+        //# C04.ods_value_is_the_function_unit_ods_assumes
+        r is Ok && (text_route(atts.rem()) ==> cell_scan(old(reader).events(), old(reader).pos() as int, txt_init()).st.plain) ==>
+            r->Ok_0.0 == gd_value(old(reader).events(), old(reader).pos(), atts.rem())
+            && r->Ok_0.1@ == gd_formula(old(reader).events(), old(reader).pos(), atts.rem())
+            && r->Ok_0.2 == gd_closed(old(reader).events(), old(reader).pos(), atts.rem())
+            && final(reader).pos() == gd_next(old(reader).events(), old(reader).pos(), atts.rem()),
         //# C19.ods_cell_text_any_content
         r is Ok && text_route(atts.rem()) ==>
             (r->Ok_0.0 matches Data::String(s) && s@ == cell_text(old(reader).events(), old(reader).pos() as int)),
@@ -738,6 +744,10 @@ proof fn witness_resource_bounds()
         let ghost mut st = txt_init();
         let ghost tot = cell_scan(evs, p0 as int, txt_init());
         proof { assert(text_route(attrs0)); }
+//@@ before? /return Ok\(\(Data::String\(s\), formula, true\)\);/
+                    proof { if st0.plain { lemma_gd_value(Data::String(s), evs, p0, attrs0); } }
+//@@ before? /Ok\(\(val, formula, false\)\)/
+        proof { lemma_gd_value(val, evs, p0, attrs0); }
 //@@ loopat /loop \{\s*buf\.clear\(\);/
             invariant
                 reader.events() == evs, evs == old(reader).events(), p0 == old(reader).pos(), attrs0 == atts.rem(),
@@ -954,6 +964,23 @@ pub open spec fn gd_closed(evs: Seq<Ev>, pos: nat, attrs: Seq<Attr>) -> bool { t
 pub open spec fn gd_next(evs: Seq<Ev>, pos: nat, attrs: Seq<Attr>) -> nat {
     if text_route(attrs) { (cell_scan(evs, pos as int, txt_init()).end + 1) as nat } else { pos }
 }
+// TRUSTED: A-std -- a String is determined by its character sequence (needed only to name the value as a function of the content)
+pub axiom fn axiom_string_ext(a: String, b: String)
+    ensures a@ == b@ ==> a == b;
+/// the contract of get_datatype determines the value: it is the function gd_value of the content
+proof fn lemma_gd_value(d: Data, evs: Seq<Ev>, pos: nat, attrs: Seq<Attr>)
+    requires cell_value_is(d, evs, pos, attrs),
+    ensures d == gd_value(evs, pos, attrs),
+{
+    let g = gd_value(evs, pos, attrs);
+    assert(cell_value_is(g, evs, pos, attrs));
+    match (d, g) {
+        (Data::String(a), Data::String(b)) => { axiom_string_ext(a, b); },
+        (Data::DateTimeIso(a), Data::DateTimeIso(b)) => { axiom_string_ext(a, b); },
+        (Data::DurationIso(a), Data::DurationIso(b)) => { axiom_string_ext(a, b); },
+        _ => {},
+    }
+}
 pub ghost struct CellEl { pub n: usize, pub v: Data, pub f: Seq<char> }
 pub open spec fn cell_el(evs: Seq<Ev>, p: nat) -> CellEl {
     CellEl { n: rep_scan(evs[p as int].attrs).unwrap_or(1), v: gd_value(evs, p + 1, evs[p as int].attrs), f: gd_formula(evs, p + 1, evs[p as int].attrs) }
@@ -1130,51 +1157,60 @@ pub open spec fn table_result(evs: Seq<Ev>, p0: nat, vlo: (u32, u32), vhi: (u32,
         decreases reader.left(),
 //@@ before /match reader\.read_event_into\(&mut buf\)/
         let ghost p = reader.pos();
+        let ghost cs0 = cells@;
+        let ghost fs0 = formulas@;
+        let ghost co0 = cols@;
+        let ghost rp0 = rows_repeats@;
+        let ghost mut row_read = false;
+        let ghost mut rr: usize = 0;
 //@@ before /read_row\(/
-                let ghost cs0 = cells@;
-                let ghost fs0 = formulas@;
-                let ghost co0 = cols@;
-                let ghost rp0 = rows_repeats@;
                 proof {
                     assert(p < evs.len() && is_row_start(evs[p as int]));
                     //# C04.ods_row_repeat_count
                     assert(row_rep(evs[p as int].attrs) == Some(row_repeats));
+                    row_read = true;
+                    rr = row_repeats;
                 }
-//@@ after /rows_repeats\.push\(row_repeats\);/
-                proof {
-                    let out = choose|out: Seq<Data>| cells@ == cs0 + out && row_v_ok(expand_v(row_cells(evs, p + 1)), out);
-                    let outf = choose|out: Seq<Seq<char>>| strs(formulas@) == strs(fs0) + out && row_f_ok(expand_f(row_cells(evs, p + 1)), out);
-                    let el = RowEl { rep: row_rep(evs[p as int].attrs), start: p + 1 };
-                    let rows1 = rows_done.push(el);
-                    assert(table_values(rows1, evs, cells@, cols@, rows_repeats@)) by {
-                        assert forall|i: int| 0 <= i < rows1.len() implies cols@[i] <= cols@[i + 1] <= cells@.len()
-                            && row_v_ok(expand_v(row_cells(evs, rows1[i].start)), #[trigger] cells@.subrange(cols@[i] as int, cols@[i + 1] as int)) by {
-                            if i < rows_done.len() {
-                                assert(cols@[i] == co0[i] && cols@[i + 1] == co0[i + 1]);
-                                assert(cells@.subrange(co0[i] as int, co0[i + 1] as int) =~= cs0.subrange(co0[i] as int, co0[i + 1] as int));
-                            } else {
-                                assert(cols@[i] == cs0.len() && cols@[i + 1] == cells@.len());
-                                assert(cells@.subrange(cs0.len() as int, cells@.len() as int) =~= out);
-                            }
+//@@ before /buf\.clear\(\);/
+        proof {
+            if row_read {
+                // (placed at the end of the loop body so that the order of the two pushes does not matter)
+                //# C04.ods_one_boundary_and_one_repeat_count_per_row
+                assert(cols@ == co0.push(cells@.len() as usize) && rows_repeats@ == rp0.push(rr));
+                let out = choose|out: Seq<Data>| cells@ == cs0 + out && row_v_ok(expand_v(row_cells(evs, p + 1)), out);
+                let outf = choose|out: Seq<Seq<char>>| strs(formulas@) == strs(fs0) + out && row_f_ok(expand_f(row_cells(evs, p + 1)), out);
+                let el = RowEl { rep: row_rep(evs[p as int].attrs), start: p + 1 };
+                let rows1 = rows_done.push(el);
+                assert(table_values(rows1, evs, cells@, cols@, rows_repeats@)) by {
+                    assert forall|i: int| 0 <= i < rows1.len() implies cols@[i] <= cols@[i + 1] <= cells@.len()
+                        && row_v_ok(expand_v(row_cells(evs, rows1[i].start)), #[trigger] cells@.subrange(cols@[i] as int, cols@[i + 1] as int)) by {
+                        if i < rows_done.len() {
+                            assert(cols@[i] == co0[i] && cols@[i + 1] == co0[i + 1]);
+                            assert(cells@.subrange(co0[i] as int, co0[i + 1] as int) =~= cs0.subrange(co0[i] as int, co0[i + 1] as int));
+                        } else {
+                            assert(cols@[i] == cs0.len() && cols@[i + 1] == cells@.len());
+                            assert(cells@.subrange(cs0.len() as int, cells@.len() as int) =~= out);
                         }
                     }
-                    assert(table_formulas(rows1, evs, formulas@, cols@, rows_repeats@)) by {
-                        assert(strs(formulas@).len() == formulas@.len() && strs(fs0).len() == fs0.len());
-                        assert forall|i: int| 0 <= i < rows1.len() implies cols@[i] <= cols@[i + 1] <= formulas@.len()
-                            && row_f_ok(expand_f(row_cells(evs, rows1[i].start)), #[trigger] strs(formulas@).subrange(cols@[i] as int, cols@[i + 1] as int)) by {
-                            if i < rows_done.len() {
-                                assert(cols@[i] == co0[i] && cols@[i + 1] == co0[i + 1]);
-                                assert(strs(formulas@).subrange(co0[i] as int, co0[i + 1] as int) =~= strs(fs0).subrange(co0[i] as int, co0[i + 1] as int));
-                            } else {
-                                assert(cols@[i] == fs0.len() && cols@[i + 1] == formulas@.len());
-                                assert(strs(formulas@).subrange(fs0.len() as int, formulas@.len() as int) =~= outf);
-                            }
+                }
+                assert(table_formulas(rows1, evs, formulas@, cols@, rows_repeats@)) by {
+                    assert(strs(formulas@).len() == formulas@.len() && strs(fs0).len() == fs0.len());
+                    assert forall|i: int| 0 <= i < rows1.len() implies cols@[i] <= cols@[i + 1] <= formulas@.len()
+                        && row_f_ok(expand_f(row_cells(evs, rows1[i].start)), #[trigger] strs(formulas@).subrange(cols@[i] as int, cols@[i + 1] as int)) by {
+                        if i < rows_done.len() {
+                            assert(cols@[i] == co0[i] && cols@[i + 1] == co0[i + 1]);
+                            assert(strs(formulas@).subrange(co0[i] as int, co0[i + 1] as int) =~= strs(fs0).subrange(co0[i] as int, co0[i + 1] as int));
+                        } else {
+                            assert(cols@[i] == fs0.len() && cols@[i + 1] == formulas@.len());
+                            assert(strs(formulas@).subrange(fs0.len() as int, formulas@.len() as int) =~= outf);
                         }
                     }
-                    assert(table_rows(evs, p) =~= seq![el] + table_rows(evs, reader.pos()));
-                    assert(rows_done + (seq![el] + table_rows(evs, reader.pos())) =~= rows1 + table_rows(evs, reader.pos()));
-                    rows_done = rows1;
                 }
+                assert(table_rows(evs, p) =~= seq![el] + table_rows(evs, reader.pos()));
+                assert(rows_done + (seq![el] + table_rows(evs, reader.pos())) =~= rows1 + table_rows(evs, reader.pos()));
+                rows_done = rows1;
+            }
+        }
 //@@ before /Ok\(\(\s*get_range\(/
     proof {
         axiom_lawful_cell_types();
@@ -1554,11 +1590,40 @@ pub open spec fn meta_is(meta: Seq<Sheet>, els: Seq<SheetEl>) -> bool {
     meta.len() == els.len() && forall|i: int| 0 <= i < els.len() ==> sheet_is(#[trigger] meta[i], els[i])
 }
 /// the two ranges stored under a sheet name are read_table's result for the LAST table of that name
+#[verifier::opaque]
 pub open spec fn ranges_are(m: Map<Seq<char>, (Range<Data>, Range<String>)>, evs: Seq<Ev>, els: Seq<SheetEl>) -> bool {
     forall|i: int| 0 <= i < els.len() && (forall|j: int| i < j < els.len() ==> els[j].name != (#[trigger] els[i]).name) ==>
         m.dom().contains(els[i].name)
         && table_result(evs, els[i].start, m[els[i].name].0.lo(), m[els[i].name].0.hi(), m[els[i].name].0.data(),
                         m[els[i].name].1.lo(), m[els[i].name].1.hi(), m[els[i].name].1.data())
+}
+
+proof fn lemma_ranges_empty(evs: Seq<Ev>)
+    ensures ranges_are(Map::<Seq<char>, (Range<Data>, Range<String>)>::empty(), evs, Seq::<SheetEl>::empty()),
+{
+    reveal(ranges_are);
+}
+/// inserting the ranges of a further table under its name keeps the map in step with the list of sheets
+proof fn lemma_ranges_push(m0: Map<Seq<char>, (Range<Data>, Range<String>)>, evs: Seq<Ev>, els0: Seq<SheetEl>, el: SheetEl, v: (Range<Data>, Range<String>))
+    requires
+        ranges_are(m0, evs, els0),
+        table_result(evs, el.start, v.0.lo(), v.0.hi(), v.0.data(), v.1.lo(), v.1.hi(), v.1.data()),
+    ensures
+        ranges_are(m0.insert(el.name, v), evs, els0.push(el)),
+{
+    reveal(ranges_are);
+    let els = els0.push(el);
+    let m = m0.insert(el.name, v);
+    assert forall|i: int| 0 <= i < els.len() && (forall|j: int| i < j < els.len() ==> els[j].name != (#[trigger] els[i]).name) implies
+        m.dom().contains(els[i].name)
+        && table_result(evs, els[i].start, m[els[i].name].0.lo(), m[els[i].name].0.hi(), m[els[i].name].0.data(),
+                        m[els[i].name].1.lo(), m[els[i].name].1.hi(), m[els[i].name].1.data()) by {
+        if i < els0.len() {
+            assert(els[i] == els0[i]);
+            assert(els[els.len() - 1].name != els[i].name);
+            assert forall|j: int| i < j < els0.len() implies els0[j].name != (#[trigger] els0[i]).name by { assert(els[j] == els0[j]); }
+        }
+    }
 }
 
 //@@ fn src/ods.rs parse_content props=C16,C04 entry ret=r r12 mutparams
@@ -1598,7 +1663,7 @@ pub open spec fn ranges_are(m: Map<Seq<char>, (Range<Data>, Range<String>)>, evs
     let ghost evs = reader.events();
     let ghost tot = pc_scan(evs, 0, pc_init());
     let ghost mut st = pc_init();
-    proof { assert(content_events(__p_zip) == Some(evs)); axiom_sheet_visible_clone(); }
+    proof { assert(content_events(__p_zip) == Some(evs)); axiom_sheet_visible_clone(); lemma_ranges_empty(evs); }
 //@@ loop 0
         invariant_except_break
             //# C16.ods_content_walk_so_far
@@ -1630,6 +1695,7 @@ pub open spec fn ranges_are(m: Map<Seq<char>, (Range<Data>, Range<String>)>, evs
 //@@ before? /styles\.insert\(/
                 proof {
                     assert(e.ev() == evs[p as int]);
+                    //# C16.ods_sheet_visibility_display_attribute
                     assert(display_vis(evs[p as int].attrs) == Some(visible));
                     st = PcSt { styles: st0.styles.insert(st0.cur, visible), ..st0 };
                 }
@@ -1664,19 +1730,8 @@ pub open spec fn ranges_are(m: Map<Seq<char>, (Range<Data>, Range<String>)>, evs
                     proof {
                         let el = SheetEl { name: unesc(at[ni].raw)->Some_0, vis: visible, start: p + 1 };
                         st = PcSt { sheets: st0.sheets.push(el), ..st0 };
-                        let els = st.sheets;
-                        let m = sheets.m();
-                        assert(m == m0.insert(el.name, (rv, rf)));
-                        assert forall|i: int| 0 <= i < els.len() && (forall|j: int| i < j < els.len() ==> els[j].name != (#[trigger] els[i]).name) implies
-                            m.dom().contains(els[i].name)
-                            && table_result(evs, els[i].start, m[els[i].name].0.lo(), m[els[i].name].0.hi(), m[els[i].name].0.data(),
-                                            m[els[i].name].1.lo(), m[els[i].name].1.hi(), m[els[i].name].1.data()) by {
-                            if i < st0.sheets.len() {
-                                assert(els[i] == st0.sheets[i]);
-                                assert(els[els.len() - 1].name != els[i].name);
-                                assert forall|j: int| i < j < st0.sheets.len() implies st0.sheets[j].name != (#[trigger] st0.sheets[i]).name by { assert(els[j] == st0.sheets[j]); }
-                            }
-                        }
+                        assert(sheets.m() == m0.insert(el.name, (rv, rf)));
+                        lemma_ranges_push(m0, evs, st0.sheets, el, (rv, rf));
                     }
 //@@ after? /defined_names = read_named_expressions\(&mut reader\)\?;/
                 proof {
